@@ -4,8 +4,13 @@ package main
 // (schema, destination) pairs, under recover. For a matching pair no input may make Parse panic.
 
 import (
+	"encoding/json"
+	"errors"
 	"fmt"
 	"math"
+	"math/big"
+	"net"
+	"net/url"
 	"os"
 	"strings"
 	"time"
@@ -44,6 +49,20 @@ type dEmbeddedVal struct {
 	dEmbInner
 	Age int
 }
+
+// value-receiver Stringer / error: calling the method through a nil pointer panics unless guarded (fmt guards it)
+type dStringer struct{ s string }
+
+func (d dStringer) String() string { return "S:" + d.s }
+
+type dErrVal struct{ s string }
+
+func (d dErrVal) Error() string { return "E:" + d.s }
+
+// pointer-receiver Stringer that dereferences its receiver
+type dPtrStringer struct{ s string }
+
+func (d *dPtrStringer) String() string { return "P:" + d.s }
 
 type dEmptyTag struct {
 	A string `zog:""`
@@ -96,7 +115,22 @@ func dynZoo() []any {
 	var nilInner *dInner
 	var nilInput *dInput
 	pNilInput := &nilInput
+	var nilTime *time.Time
+	var nilDur *time.Duration
+	var nilIP *net.IP
+	var nilStringer *dStringer
+	var nilErrVal *dErrVal
+	var nilPtrStringer *dPtrStringer
+	var nilURL *url.URL
+	var nilBig *big.Int
+	dur := 3 * time.Second
 	out := []any{
+		// typed nils (and non-nil values) of types with String() / Error() methods, alone and inside records
+		nilTime, nilDur, nilIP, nilStringer, nilErrVal, nilPtrStringer, nilURL, nilBig, &dur, dStringer{"v"}, &dStringer{"p"}, dErrVal{"v"}, &dErrVal{"p"}, &dPtrStringer{"p"},
+		net.IPv4(1, 2, 3, 4), big.NewInt(7), json.Number("12"), json.Number("zz"), []byte("bytes"), url.Values{"name": {"x"}}, errors.New("an error"),
+		map[string]any{"name": nilTime, "when": nilTime, "age": nilDur, "ok": nilStringer, "tags": []any{nilStringer, nilErrVal, nilIP}, "Name": nilPtrStringer, "Ébène": nilErrVal},
+		map[string]any{"name": nilStringer, "inner": map[string]any{"town": nilErrVal, "zip": nilDur}, "list": []any{map[string]any{"a": nilBig}}},
+		map[string]fmt.Stringer{"name": nilStringer, "Name": nilTime}, map[string]error{"name": nilErrVal}, []fmt.Stringer{nilStringer, nilDur},
 		// pointers whose INNER pointer is nil, at depth 2 and 3, top level and nested
 		&nilInput, &pNilInput, map[string]any{"inner": &nilInner, "ptr": &nilInner, "e": &nilInput},
 		// embedded struct pointers (nil and non-nil) promoting a schema key
@@ -138,7 +172,7 @@ func dynJSONDocs() []string {
 
 func streamDyn(seed uint64, n int) (*Summary, error) {
 	sum := newSummary("dyn", seed)
-	sum.Rule = "zoo of ~75 Go dynamic values (nil and typed nils, pointer chains, named and unnamed maps with every key/element kind, structs with unexported fields and empty tags, channels, functions, NaN/Inf, huge numbers, invalid UTF-8, 200-deep nesting, long strings) and ~35 JSON documents (incl. {}, non-objects, truncated, 500-deep, invalid UTF-8) through Parse / zjson / zenv on matching (schema, destination) pairs incl. a 48-byte schema key, a non-ASCII key and empty tags, plus random mutations of the zoo; exhaustive over the zoo; non-trivial = every case; distinct = distinct (front end, value)"
+	sum.Rule = "zoo of ~100 Go dynamic values (nil and typed nils incl. nil pointers of types with value-receiver String()/Error() methods, pointer chains, named and unnamed maps with every key/element kind, structs with unexported fields and empty tags, channels, functions, NaN/Inf, huge numbers, invalid UTF-8, 200-deep nesting, long strings) and ~35 JSON documents (incl. {}, non-objects, truncated, 500-deep, invalid UTF-8) through Parse / zjson / zenv on matching (schema, destination) pairs incl. a 48-byte schema key, a non-ASCII key and empty tags, plus random mutations of the zoo; exhaustive over the zoo; non-trivial = every case; distinct = distinct (front end, value)"
 	schema := dynSchema()
 	prims := []func(v any) (string, any){
 		func(v any) (string, any) { var d string; return "String", z.String().Required().Min(1).Parse(v, &d) },
